@@ -649,6 +649,8 @@ class Share(object):
         If key in ._data, return value at key
         Otherwise set value at key to default and return default
         """
+        if key not in self._data.__dict__ and not REO_IdentPub.match(key):
+            raise KeyError("%s invalid key '%s'" % (self.__class__.__name__, key))
         value = self._data.__dict__.setdefault(key, default)
         return value
 
